@@ -16,10 +16,25 @@ Streams
           - correspondence of the traversals and find only (path results are not compared)
   posix   Py/Posix.lean against the real posixpath (commonprefix, dirname, normpath, relpath)
           and Sectionable._get_relative_path on arbitrary absolute strings
+  ids     trees whose objects share ids (Section(oid=...), Property(oid=...)): ids are unique by
+          convention only, the tree is defined by the child lists
+  hist    the document reaches its state through a HISTORY: built (constructors or written and
+          read back through the XML/JSON/YAML reader, string or file), then edited through the
+          public API (rename, move, remove, insert, replace, reorder, sort, clone with and without
+          keep_id, new_id, link / merge / clean / finalize, type and value edits, refused calls,
+          objects moved to and from a second Document), with queries of every kind run BEFORE and
+          BETWEEN the edits on the same objects. The queried tree is read from the child lists
+          (Section.sections / Section.properties) after the history; the model gets that tree.
 """
+import base64
 import functools
+import io
+import json
+import os
 import posixpath
 import sys
+import tempfile
+import zlib
 
 import framework as fw
 
@@ -84,6 +99,18 @@ def random_forest(rng, n, names, maxkids):
     return freeze(root)
 
 
+def chain_forest(rng, depth, names):
+    """A deep tree: one chain of `depth` Sections with a side branch here and there."""
+    node = ()
+    for _ in range(depth):
+        nm = rng.choice(names)
+        kids = ((nm, node),)
+        if rng.random() < 0.2:
+            kids += ((rng.choice([x for x in names if x != nm]), ()),)
+        node = kids if rng.random() < 0.5 else kids[::-1]
+    return node
+
+
 def plain(name):
     return name != "" and "/" not in name and ":" not in name and name not in (".", "..")
 
@@ -100,6 +127,186 @@ def path_safe(secs):
         if not path_safe(s["s"]):
             return False
     return True
+
+
+# ----------------------------------------------------------------------------- histories
+HIST_NAMES = NAMES + ["abcd", "c", "...", "a b", u"\xe9", u"\xdf", u"\u0130", u"a\u2028b", u"x\x85", "1", "10", "2",
+                      "A", "ba", "-"]
+OP_KINDS = ["rename", "prename", "move", "remove", "new", "newprop", "pmove", "premove", "reorder",
+            "preorder", "sort", "clone", "setid", "link", "clean", "merge", "type", "values", "finalize",
+            "adopt", "bounce"]
+OP_WEIGHTS = [4, 1, 4, 1, 2, 1, 1, 1, 1, 1, 1, 4, 1, 2, 1, 1, 1, 1, 1, 2, 2]
+
+
+def number_nodes(secs, counter):
+    """Gives every Section of the JSON forest a handle "u" (1, 2, ... in preorder)."""
+    for s in secs:
+        counter[0] += 1
+        s["u"] = counter[0]
+        number_nodes(s["s"], counter)
+
+
+def json_nodes(secs, prefix=""):
+    """[(absolute path, node)] of a JSON forest in preorder."""
+    out = []
+    for s in secs:
+        path = prefix + "/" + s["n"]
+        out.append((path, s))
+        out += json_nodes(s["s"], path)
+    return out
+
+
+def share_ids(rng, secs):
+    """Lets some objects of the forest share an id (ids are unique by convention only)."""
+    nodes = [n for _p, n in json_nodes(secs)]
+    objs = nodes + [p for n in nodes for p in n["p"]]
+    if len(objs) < 2:
+        return
+    mode = rng.choice(["pair", "pair", "sections", "all", "two groups"])
+    if mode == "pair":
+        for o in rng.sample(objs, 2):
+            o["i"] = 1
+    elif mode == "sections":
+        for o in nodes:
+            o["i"] = 1
+    elif mode == "all":
+        for o in objs:
+            o["i"] = 1
+    else:
+        for o in objs:
+            if rng.random() < 0.7:
+                o["i"] = rng.choice([1, 2])
+
+
+def hist_spec(rng, maxu, docs=False):
+    if docs and rng.random() < 0.3:
+        return {"u": rng.choice([0, 0, -1])}
+    spec = {"u": rng.randrange(1, maxu + 1)}
+    if rng.random() < 0.2:
+        spec["d"] = [rng.randrange(0, 4) for _ in range(rng.randrange(1, 4))]
+    return spec
+
+
+def hist_op(rng, kind, counter, uid):
+    """One operation of a history; the objects are named by handles, resolved when the history runs."""
+    maxu = counter[0]
+    x = hist_spec(rng, maxu)
+    name = rng.choice(HIST_NAMES) if rng.random() < 0.8 else rng.choice(NAMES) + str(rng.randrange(0, 100))
+    how = rng.choice(["parent", "append", "insert", "extend", "setitem", "append", "parent"])
+    i = rng.choice([0, 0, 1, 2, -1, 5, 10])
+    if kind == "rename":
+        if rng.random() < 0.05:
+            name = rng.choice(WEIRD_NAMES)     # the history may pass through names outside the quantifier
+        return {"op": kind, "x": x, "name": name if rng.random() < 0.93 else None}
+    if kind == "prename":
+        return {"op": kind, "x": x, "k": rng.randrange(0, 3), "name": rng.choice(PROP_NAMES + HIST_NAMES)}
+    if kind == "move":
+        return {"op": kind, "x": x, "to": hist_spec(rng, maxu, True), "how": how, "i": i}
+    if kind == "remove":
+        return {"op": kind, "x": x, "how": rng.choice(["remove", "parent_none"])}
+    if kind == "new":
+        counter[0] += 1
+        op = {"op": kind, "to": hist_spec(rng, maxu, True), "name": name if rng.random() < 0.85 else None,
+              "type": rng.choice(TYPES[:8]), "how": rng.choice(["ctor", "create", "append", "insert", "extend"]),
+              "i": i, "u": counter[0]}
+        if rng.random() < 0.3:
+            op["idof"] = hist_spec(rng, maxu)
+        return op
+    if kind == "newprop":
+        uid[0] += 1
+        return {"op": kind, "to": hist_spec(rng, maxu), "name": rng.choice(PROP_NAMES + ["q", "a b", "..."]),
+                "v": rng.choice([[uid[0]], [uid[0], -3], [], [-9, -9]]),
+                "how": rng.choice(["ctor", "create", "append", "insert", "extend", "setitem"]), "i": i}
+    if kind == "pmove":
+        return {"op": kind, "x": x, "k": rng.randrange(0, 3), "to": hist_spec(rng, maxu), "how": how, "i": i}
+    if kind == "premove":
+        return {"op": kind, "x": x, "k": rng.randrange(0, 3), "how": rng.choice(["remove", "parent_none"])}
+    if kind == "reorder":
+        return {"op": kind, "x": x, "i": rng.choice([0, 1, 2, -1])}
+    if kind == "preorder":
+        return {"op": kind, "x": x, "k": rng.randrange(0, 3), "i": rng.choice([0, 1, 2, -1])}
+    if kind == "sort":
+        return {"op": kind, "x": hist_spec(rng, maxu, True), "rev": rng.random() < 0.5}
+    if kind == "clone":
+        counter[0] += 1
+        same_parent = rng.random() < 0.55
+        return {"op": kind, "x": x, "keep_id": rng.random() < 0.5, "children": rng.random() < 0.85,
+                "name": name if (same_parent or rng.random() < 0.5) else None,
+                "to": "parent" if same_parent else hist_spec(rng, maxu, True),
+                "how": rng.choice(["append", "append", "insert", "extend", "parent", "setitem"]), "i": i,
+                "u": counter[0]}
+    if kind == "setid":
+        return {"op": kind, "x": x, "idof": hist_spec(rng, maxu)}
+    if kind == "link":
+        return {"op": kind, "x": x, "tgt": hist_spec(rng, maxu), "abs": rng.random() < 0.5}
+    if kind == "clean":
+        return {"op": kind, "x": hist_spec(rng, maxu, True)}
+    if kind == "merge":
+        return {"op": kind, "x": x, "src": hist_spec(rng, maxu)}
+    if kind == "type":
+        return {"op": kind, "x": x, "t": rng.choice(TYPES[:8])}
+    if kind == "values":
+        uid[0] += 1
+        return {"op": kind, "x": x, "k": rng.randrange(0, 3), "v": rng.choice([[uid[0]], [uid[0], -9, -8], []])}
+    if kind == "finalize":
+        return {"op": kind}
+    if kind == "adopt":
+        # a Section (with what is below it) comes over from the second Document
+        return {"op": "move", "x": {"u": -1, "d": [rng.randrange(0, 3)]}, "to": hist_spec(rng, maxu, True),
+                "how": how, "i": i}
+    if kind == "bounce":
+        # a Section leaves for the second Document (or is detached), is queried there, and comes back
+        back = {"op": "move", "x": x, "to": hist_spec(rng, maxu, True), "how": how, "i": i}
+        if rng.random() < 0.3:
+            out = {"op": "remove", "x": x, "how": rng.choice(["remove", "parent_none"])}
+        else:
+            out = {"op": "move", "x": x, "to": {"u": -1}, "how": rng.choice(["parent", "append", "insert"]), "i": i}
+        return [out, {"op": "warm", "k": [k for k in WARM_KINDS if rng.random() < 0.5]}, back]
+    raise ValueError(kind)
+
+
+def hist_case(rng, uid, forest, kinds, warm, plan, via=None, links=False, ids=False, big=False):
+    """A history: initial tree (+ a second Document), then for every kind in `kinds` an optional
+    round of queries (`warm`: None = random subset, else the list) followed by the operation."""
+    types = TYPES[:8] if via and via[0] != "CLONE" else TYPES
+    pnames = PROP_NAMES + (["...", "a b", u"\xe9"] if big else [])
+    doc = {"s": decorate(forest, rng, uid, types, pnames)}
+    doc["o"] = decorate(rng.choice(forests(rng.randrange(1 if "adopt" in kinds else 0, 4))), rng, uid,
+                        types[:3], pnames)
+    counter = [0]
+    number_nodes(doc["s"], counter)
+    number_nodes(doc["o"], counter)
+    nodes = json_nodes(doc["s"])
+    for _path, node in nodes:
+        if node["p"] and rng.random() < 0.15:
+            node["p"][-1]["v"] = []                     # an empty value list is a value list
+    if ids:
+        share_ids(rng, doc["s"])
+    if links and len(nodes) > 1:
+        for _try in range(10):
+            (pa, a), (pb, _b) = rng.sample(nodes, 2)
+            if not (pa + "/").startswith(pb + "/") and not (pb + "/").startswith(pa + "/"):
+                a["l"] = pb                              # stored unresolved until finalize / load
+                break
+    ops = []
+    for kind in kinds:
+        if counter[0] == 0:
+            break
+        ks = warm if warm is not None else [k for k in WARM_KINDS if rng.random() < 0.4]
+        if ks:
+            ops.append({"op": "warm", "k": list(ks) + (["mid"] if rng.random() < 0.35 else [])})
+        op = hist_op(rng, kind, counter, uid)
+        ops += op if isinstance(op, list) else [op]
+    if links and "finalize" not in kinds and not via:
+        ops.append({"op": "finalize"})
+    if ops and rng.random() < 0.5:
+        # queries right before the final ones, no edit in between (the same question asked twice,
+        # iterators left suspended)
+        ops.append({"op": "warm", "k": [k for k in WARM_KINDS if rng.random() < 0.3] or ["partial"]})
+    case = {"stream": "hist", "plan": plan, "doc": doc, "ops": ops}
+    if via:
+        case["via"] = list(via)
+    return case
 
 
 # ----------------------------------------------------------------------------- positions
@@ -182,10 +389,19 @@ def _plan_queries(case):
         qs.append({"q": "itersec", "start": list(st), "md": 1, "ys": True, "f": {"k": "none"}})
         qs.append({"q": "iterval", "start": list(st), "md": None, "f": {"k": "has", "n": -9}})
         for key, typ in ((None, None), ("ab", None), (None, "T"), ("a", "stim/white"), (None, "stim"),
-                         (None, "STIM"), ("zz", None), (None, ""), (None, "white"), (None, "X")):
+                         (None, "STIM"), ("zz", None), (None, ""), (None, "white"), (None, "X"),
+                         ("", None), ("a", "STIM/white")):
             for fa in (False, True):
                 for sub in (False, True):
                     qs.append({"q": "find", "cur": list(st), "key": key, "type": typ, "all": fa, "sub": sub})
+        if not st:
+            # find_related from the Document: only the children relation is non-empty
+            for key, typ in ((None, None), ("ab", None), (None, "t"), ("a", "T")):
+                for (c, s, p, r) in ((True, True, True, True), (True, False, False, False),
+                                     (False, True, True, True)):
+                    for fa in (False, True):
+                        qs.append({"q": "related", "cur": [], "key": key, "type": typ, "children": c,
+                                   "siblings": s, "parents": p, "recursive": r, "all": fa})
         if st:
             flagsets = [(c, s, p, r) for c in (False, True) for s in (False, True) for p in (False, True)
                         for r in (False, True)]
@@ -206,6 +422,8 @@ def _plan_queries(case):
 class Impl(object):
     """A real odml Document built from the JSON tree, with the object <-> position maps."""
 
+    rawvals = False
+
     def __init__(self, doc):
         import odml
         self.odml = odml
@@ -214,17 +432,29 @@ class Impl(object):
         self.obj_at = {(): self.doc}
         self.prop_of = {}
         self.keep = []
+        self.objs = {}
         self._build(self.doc, (), doc["s"])
 
     def _build(self, parent, ppos, secs):
+        """Optional keys of a node: "i" (objects with the same "i" get the same id), "l" (a link that is
+        stored unresolved, as a reader does before finalize), "u" (handle used by the ops of a history)."""
         odml = self.odml
         for i, s in enumerate(secs):
-            sec = odml.Section(name=s["n"], type=s["t"], parent=parent)
+            kw = {}
+            if s.get("i") is not None:
+                kw["oid"] = fixed_uuid(s["i"])
+            if s.get("l") is not None:
+                kw["link"] = s["l"]
+            sec = odml.Section(name=s["n"], type=s["t"], parent=parent, **kw)
             pos = ppos + (i,)
             self.pos_of[id(sec)] = pos
             self.obj_at[pos] = sec
+            if "u" in s:
+                self.objs[s["u"]] = sec
             for k, p in enumerate(s["p"]):
-                prop = odml.Property(name=p["n"], values=list(p["v"]), dtype="int", parent=sec)
+                kw = {"oid": fixed_uuid(p["i"])} if p.get("i") is not None else {}
+                prop = odml.Property(name=p["n"], values=list(p["v"]), dtype="int" if p["v"] else None,
+                                     parent=sec, **kw)
                 self.prop_of[id(prop)] = (pos, k)
                 self.keep.append(prop)
             self._build(sec, pos, s["s"])
@@ -241,7 +471,11 @@ class Impl(object):
         return {"foreign": repr(obj)[:80]}
 
     def enc_vals(self, vals):
-        # a value list is identified by the Property holding it (its first value is unique)
+        # a value list is identified by the Property holding it (its first value is unique);
+        # where clones / merges / empty lists make that ambiguous (streams ids and hist) the value
+        # lists themselves are the observation
+        if self.rawvals:
+            return list(vals) if isinstance(vals, list) else {"foreign": repr(vals)[:80]}
         for prop in self.keep:
             if prop.values is vals or (list(prop.values) == list(vals) and len(vals) > 0):
                 return self.enc_prop(prop)
@@ -331,6 +565,491 @@ class Impl(object):
         raise ValueError(kind)
 
 
+def fixed_uuid(i):
+    import uuid
+    return str(uuid.UUID(int=0x1000 + int(i)))
+
+
+class Skip(Exception):
+    """The history could not be set up the way the case describes it (never a verdict)."""
+
+
+WARM_KINDS = ["paths", "rel", "lookup", "iter", "partial", "find", "validate", "detached"]
+MAX_HIST_SECS = 300
+
+
+class HistImpl(Impl):
+    """
+    A Document that reaches its state through a history (stream hist): initial tree, optional trip
+    through a writer + reader, then operations of the public API with queries in between.
+    Afterwards the tree is read from the child lists; that tree is what the queries, the model and
+    the oracle talk about ("parent chain and child lists define the path of a node").
+    """
+    rawvals = True
+
+    def __init__(self, case):
+        import odml
+        self.odml = odml
+        self.doc = odml.Document()
+        self.other = odml.Document()
+        self.pos_of = {}
+        self.obj_at = {}
+        self.prop_of = {}
+        self.keep = []
+        self.objs = {}
+        self.log = []
+        self.mid = []
+        self.stopped = None
+        self.suspended = []
+        self.nsteps = 0
+        self._build(self.doc, (), case["doc"]["s"])
+        self._build(self.other, (), case["doc"].get("o", []))
+        if case.get("via"):
+            self._roundtrip(case["via"], case["doc"])
+        self.objs[0] = self.doc
+        self.objs[-1] = self.other
+        for n, op in enumerate(case.get("ops", [])):
+            self.nsteps += op["op"] != "warm"
+            try:
+                self.log.append(self.apply(op) or "ok")
+            except Skip:
+                self.log.append("skip")
+            except Exception as exc:          # a refused call is part of the history
+                self.log.append("raised")
+            if op["op"] != "warm" and len(self.walk(self.doc)[1]) > MAX_HIST_SECS:
+                self.stopped = n              # merges / clones of clones: keep the tree small
+                break
+        self.final, secs, props, bad = self.walk(self.doc)
+        if bad:
+            raise Skip(bad)
+        self.pos_of = {id(self.doc): ()}
+        self.obj_at = {(): self.doc}
+        self.prop_of = {}
+        for pos, sec in secs:
+            self.pos_of[id(sec)] = pos
+            self.obj_at[pos] = sec
+        for pos, k, prop in props:
+            self.prop_of[id(prop)] = (pos, k)
+        self.keep = [p for _pos, _k, p in props]
+
+    # -- the tree as the child lists define it ---------------------------------
+    @staticmethod
+    def walk(doc):
+        """-> (JSON tree, [(pos, Section)] in level order, [(pos, k, Property)], inconsistency or None)"""
+        out = {"s": []}
+        secs, props = [], []
+        bad = None
+        level = [((), doc, out["s"])]
+        depth = 0
+        while level and not bad:
+            depth += 1
+            nxt = []
+            for ppos, parent, dst in level:
+                for i, sec in enumerate(iter(parent.sections)):
+                    pos = ppos + (i,)
+                    node = {"n": sec.name, "t": sec.type, "p": [], "s": []}
+                    if sec.parent is not parent:
+                        bad = "child list and parent of Section %s disagree" % (pos,)
+                    if not isinstance(node["n"], str) or not isinstance(node["t"], str):
+                        bad = "name / type of Section %s is not a string" % (pos,)
+                    for k, prop in enumerate(iter(sec.properties)):
+                        vals = prop.values
+                        if prop.parent is not sec:
+                            bad = "child list and parent of Property %s:%d disagree" % (pos, k)
+                        if not isinstance(prop.name, str) or not isinstance(vals, list) or \
+                                not all(type(v) is int for v in vals):
+                            bad = "name / values of Property %s:%d outside the harness' vocabulary" % (pos, k)
+                        node["p"].append({"n": prop.name, "v": list(vals)})
+                        props.append((pos, k, prop))
+                    dst.append(node)
+                    secs.append((pos, sec))
+                    nxt.append((pos, sec, node["s"]))
+            level = nxt
+            if depth > 60 or len(secs) > 5000:
+                bad = "tree too deep / too large (cycle?)"
+        return out, secs, props, bad
+
+    def _roundtrip(self, via, doc_json):
+        """Write the Document and read it back (string or file entry points); the handles of the
+        initial tree then name the objects of the loaded Document (matched position by position)."""
+        fmt, how = via
+        if not self.finalize_ok():
+            raise Skip("links of the initial tree cannot be resolved finitely")
+        try:
+            loaded = self._write_read(fmt, how)
+        except Exception as exc:
+            raise Skip("the Document could not be written and read back: %s" % fw.exc_name(exc))
+        old, osecs, _p, bad = self.walk(self.doc)
+        new, nsecs, _p, bad2 = self.walk(loaded)
+        shape = lambda t: [shape(s) for s in t["s"]]
+        if bad or bad2 or (not has_links(doc_json["s"]) and shape(old) != shape(new)):
+            raise Skip("the reader did not return the tree that was written")
+        by_pos = dict(nsecs)
+        back = dict((id(sec), pos) for pos, sec in osecs)
+        for u, sec in list(self.objs.items()):
+            pos = back.get(id(sec))
+            if pos in by_pos:
+                self.objs[u] = by_pos[pos]
+        self.doc = loaded
+
+    def _write_read(self, fmt, how):
+        from odml.tools.odmlparser import ODMLReader, ODMLWriter
+        if fmt == "CLONE":
+            loaded = self.doc.clone(keep_id=(how == "keep_id"))
+        elif how == "string":
+            text = ODMLWriter(fmt).to_string(self.doc)
+            loaded = ODMLReader(fmt, show_warnings=False).from_string(text)
+        else:
+            fd, path = tempfile.mkstemp(prefix="c14_", suffix="." + fmt.lower())
+            os.close(fd)
+            try:
+                self.odml.save(self.doc, path, fmt)
+                loaded = self.odml.load(path, fmt, show_warnings=False)
+            finally:
+                if os.path.exists(path):
+                    os.remove(path)
+        return loaded
+
+    # -- operations --------------------------------------------------------------
+    def resolve(self, spec):
+        obj = self.objs.get(spec["u"])
+        if obj is None:
+            raise Skip()
+        for i in spec.get("d", []):
+            kids = obj.sections
+            if len(kids) == 0:
+                break
+            obj = kids[i % len(kids)]
+        return obj
+
+    def nth_prop(self, sec, k):
+        props = getattr(sec, "properties", None)
+        if not props:
+            raise Skip()
+        return props[k % len(props)]
+
+    def attach(self, obj, to, how, i, props=False):
+        if how == "parent":
+            obj.parent = to
+        elif how == "append":
+            to.append(obj)
+        elif how == "insert":
+            to.insert(i, obj)
+        elif how == "extend":
+            to.extend([obj])
+        elif how == "setitem":
+            lst = to.properties if props else to.sections
+            if len(lst) == 0:
+                to.append(obj)
+            else:
+                lst[i % len(lst)] = obj
+        else:
+            raise ValueError(how)
+
+    @staticmethod
+    def related(a, b):
+        """a is b, or one is an ancestor of the other (parent chains)."""
+        for x, y in ((a, b), (b, a)):
+            node = x
+            for _ in range(200):
+                if node is y:
+                    return True
+                node = getattr(node, "parent", None)
+                if node is None:
+                    break
+        return False
+
+    def linking(self, root):
+        """The Sections at or below root that carry a link or an include."""
+        out = []
+        todo = [root]
+        while todo and len(out) < 50:
+            node = todo.pop()
+            if getattr(node, "link", None) is not None or getattr(node, "include", None) is not None:
+                out.append(node)
+            todo += list(iter(node.sections))
+        return out
+
+    def link_ok(self, sec, target):
+        """Resolving links is only asked for where it is a finite affair: the target is neither the
+        linking Section nor above / below it, and what gets copied carries no links itself (a link into
+        the own ancestry makes Document.finalize / merge copy without end - not this property's topic)."""
+        return (not self.related(sec, target) and not self.linking(target)
+                and self.linking(sec) in ([], [sec]))
+
+    def finalize_ok(self):
+        for sec in self.linking(self.doc):
+            if sec.include is not None:
+                return False
+            try:
+                target = sec.get_section_by_path(sec.link)
+            except Exception:
+                continue                      # finalize raises there; part of the history
+            if not self.link_ok(sec, target):
+                return False
+        return True
+
+    def apply(self, op):
+        odml = self.odml
+        R = self.resolve
+        k = op["op"]
+        if k == "warm":
+            return self.warm(op["k"])
+        if k == "finalize":
+            if not self.finalize_ok():
+                raise Skip()
+            return self.doc.finalize()
+        x = R(op["x"]) if "x" in op else None
+        if "to" in op:
+            to = x.parent if op["to"] == "parent" else R(op["to"])
+            if to is None:
+                raise Skip()
+        if k == "rename":
+            x.name = op["name"]
+        elif k == "prename":
+            self.nth_prop(x, op["k"]).name = op["name"]
+        elif k == "move":
+            self.attach(x, to, op["how"], op.get("i", 0))
+        elif k == "remove":
+            if x.parent is None:
+                raise Skip()
+            if op["how"] == "remove":
+                x.parent.remove(x)
+            else:
+                x.parent = None
+        elif k == "new":
+            kw = {"oid": R(op["idof"]).id} if "idof" in op else {}
+            if op["how"] == "ctor":
+                self.objs[op["u"]] = odml.Section(name=op["name"], type=op["type"], parent=to, **kw)
+            elif op["how"] == "create":
+                self.objs[op["u"]] = to.create_section(op["name"], op["type"], **kw)
+            else:
+                sec = odml.Section(name=op["name"], type=op["type"], **kw)
+                self.objs[op["u"]] = sec
+                self.attach(sec, to, op["how"], op.get("i", 0))
+        elif k == "newprop":
+            vals = list(op["v"])
+            if op["how"] == "ctor":
+                odml.Property(name=op["name"], values=vals, dtype="int" if vals else None, parent=to)
+            elif op["how"] == "create":
+                to.create_property(op["name"], vals, "int" if vals else None)
+            else:
+                prop = odml.Property(name=op["name"], values=vals, dtype="int" if vals else None)
+                self.attach(prop, to, op["how"], op.get("i", 0), props=True)
+        elif k == "pmove":
+            self.attach(self.nth_prop(x, op["k"]), to, op["how"], op.get("i", 0), props=True)
+        elif k == "premove":
+            prop = self.nth_prop(x, op["k"])
+            if op["how"] == "remove":
+                x.remove(prop)
+            else:
+                prop.parent = None
+        elif k == "reorder":
+            x.reorder(op["i"])
+        elif k == "preorder":
+            self.nth_prop(x, op["k"]).reorder(op["i"])
+        elif k == "sort":
+            x.sections.sort()
+            if hasattr(x, "properties"):
+                x.properties.sort(reverse=op.get("rev", False))
+        elif k == "clone":
+            c = x.clone(children=op["children"], keep_id=op["keep_id"])
+            self.objs[op["u"]] = c
+            if op.get("name") is not None:
+                c.name = op["name"]
+            self.attach(c, to, op["how"], op.get("i", 0))
+        elif k == "setid":
+            x.new_id(R(op["idof"]).id)
+        elif k == "link":
+            tgt = R(op["tgt"])
+            if not self.link_ok(x, tgt) or self.linking(self.doc) not in ([], [x]):
+                raise Skip()
+            x.link = tgt.get_path() if op["abs"] else x.get_relative_path(tgt)
+        elif k == "clean":
+            x.clean()
+        elif k == "merge":
+            x.merge(R(op["src"]), strict=False)
+        elif k == "type":
+            x.type = op["t"]
+        elif k == "values":
+            self.nth_prop(x, op["k"]).values = list(op["v"])
+        else:
+            raise ValueError(k)
+
+    # -- queries before / between the edits -----------------------------------------
+    def warm(self, kinds):
+        """Every kind of query the property names, on the objects that are edited afterwards.
+        The results are not looked at (except by "mid"); an exception here is not a verdict."""
+        for doc in (self.other, self.doc):
+            _tree, secs, props, bad = self.walk(doc)
+            if bad:
+                return "skip"
+            self.warm_doc(doc, _tree, secs, props, kinds)
+        return "ok"
+
+    def warm_doc(self, doc, _tree, secs, props, kinds):
+        for kind in kinds:
+            if kind in ("mid", "detached") and doc is not self.doc:
+                continue
+            try:
+                if kind == "paths":
+                    [s.get_path() for _p, s in secs]
+                    [p.get_path() for _p, _k, p in props]
+                elif kind == "rel":
+                    for _p, a in secs[:6]:
+                        for _q, b in secs[-6:]:
+                            a.get_relative_path(b)
+                elif kind == "lookup":
+                    for _p, s in secs[:40]:
+                        doc.get_section_by_path(s.get_path())
+                        (s.parent if s.parent is not None else doc).get_section_by_path(s.get_path())
+                    for _p, _k, p in props[:40]:
+                        doc.get_property_by_path(p.get_path())
+                elif kind == "iter":
+                    for start in [doc] + [s for _p, s in secs[:8]]:
+                        list(start.itersections())
+                        list(start.itersections(max_depth=1, yield_self=True))
+                        list(start.iterproperties())
+                        list(start.itervalues(max_depth=2))
+                elif kind == "partial":
+                    # iterators that are started and left suspended while the tree is edited
+                    for start in [doc] + [s for _p, s in secs[:3]]:
+                        for gen in (start.iterproperties(), start.itervalues(), start.itersections(),
+                                    start.itersections(yield_self=True, max_depth=1)):
+                            next(gen, None)
+                            self.suspended.append(gen)
+                elif kind == "find":
+                    for start in [doc] + [s for _p, s in secs[:8]]:
+                        for key, typ in ((None, None), ("a", None), ("ab", None), (None, "t"), (None, "stim")):
+                            start.find(key=key, type=typ)
+                            start.find(key=key, type=typ, findAll=True, include_subtype=True)
+                            if start is not doc:
+                                start.find_related(key=key, type=typ)
+                                start.find_related(key=key, type=typ, findAll=True)
+                elif kind == "validate":
+                    if len(secs) <= 60:
+                        doc.validate()
+                elif kind == "detached":
+                    # objects that are (or were) outside the Document: they come back by a later move
+                    for u, obj in sorted(self.objs.items()):
+                        if u > 0:
+                            obj.get_path()
+                            list(obj.itersections(yield_self=True))
+                            [p.get_path() for p in obj.properties]
+                elif kind == "mid":
+                    self.midcheck(secs, props, _tree)
+            except Exception:
+                pass
+
+    def midcheck(self, secs, props, tree):
+        """The property at an intermediate state of the history (oracle level, no model):
+        absolute paths from the Document and from the parent, and the full traversals."""
+        if len(secs) > 40 or not path_safe(tree["s"]) or len(self.mid) > 3:
+            return
+        doc = self.doc
+        step = self.nsteps
+        for pos, sec in secs:
+            for frm in (doc, sec.parent, sec):
+                try:
+                    path = sec.get_path()
+                    got = frm.get_section_by_path(path)
+                except Exception as exc:
+                    got = exc
+                if got is not sec:
+                    self.mid.append("after %d steps of the history: path %r of Section %s does not lead back "
+                                    "to it (%s)" % (step, path, list(pos), type(got).__name__))
+                    return
+        for pos, k, prop in props:
+            try:
+                path = prop.get_path()
+                got = doc.get_property_by_path(path)
+            except Exception as exc:
+                got = exc
+            if got is not prop:
+                self.mid.append("after %d steps of the history: path %r of Property %s:%d does not lead "
+                                "back to it (%s)" % (step, path, list(pos), k, type(got).__name__))
+                return
+        got = list(doc.itersections())
+        if sorted(id(s) for s in got) != sorted(id(s) for _p, s in secs):
+            self.mid.append("after %d steps of the history: Document.itersections() yields %d Sections, "
+                            "the child lists hold %d" % (step, len(got), len(secs)))
+        got = list(doc.iterproperties())
+        if sorted(id(p) for p in got) != sorted(id(p) for _p, _k, p in props):
+            self.mid.append("after %d steps of the history: Document.iterproperties() yields %d Properties, "
+                            "the child lists hold %d" % (step, len(got), len(props)))
+        got = list(doc.itervalues())
+        if sorted(map(repr, got)) != sorted(repr(p.values) for _p, _k, p in props):
+            self.mid.append("after %d steps of the history: Document.itervalues() yields %d value lists, "
+                            "the child lists hold %d" % (step, len(got), len(props)))
+
+
+def has_links(secs):
+    return any(s.get("l") is not None or has_links(s["s"]) for s in secs)
+
+
+def pack_answers(answers):
+    """The answers of a tree case travel compressed: the framework keeps every observation of a run
+    in memory (thorough: ~0.5 MB per exhaustively queried tree, 12 GB in all, which together with the
+    model requests and answers got the run killed on a machine that other checks use as well)."""
+    return base64.b64encode(zlib.compress(json.dumps(answers).encode("utf-8"), 6)).decode("ascii")
+
+
+_ANS_CACHE = {}
+
+
+def answers_of(obs):
+    if "answers" in obs:
+        return obs["answers"]
+    hit = _ANS_CACHE.get(id(obs))
+    if hit is not None and hit[0] is obs:
+        return hit[1]
+    ans = json.loads(zlib.decompress(base64.b64decode(obs["answers_z"])).decode("utf-8"))
+    _ANS_CACHE.clear()
+    _ANS_CACHE[id(obs)] = (obs, ans)
+    return ans
+
+
+def is_hist(case):
+    return "ops" in case or "via" in case
+
+
+_EFF_CACHE = {}
+
+
+def eff_case(case, obs):
+    """The case whose "doc" is the tree the queries talk about: the generated tree, or (stream hist)
+    the tree read from the child lists after the history. None: the history was skipped."""
+    if not is_hist(case):
+        return case
+    if not isinstance(obs, dict) or "doc" not in obs:
+        return None
+    hit = _EFF_CACHE.get(id(obs))
+    if hit is not None and hit[0] is obs:
+        return hit[1]
+    dc = derived_case(case, obs["doc"])
+    if len(_EFF_CACHE) > 4:
+        _EFF_CACHE.clear()
+    _EFF_CACHE[id(obs)] = (obs, dc)
+    return dc
+
+
+def derived_case(case, final):
+    nsecs = len(sec_positions(final)[0])
+    plan = case["plan"] if (case["plan"] != "all" or nsecs <= 6) else 1 + nsecs
+    return {"stream": case["stream"], "h": path_safe(final["s"]), "plan": plan, "doc": final, "rawvals": True}
+
+
+def vals_at(doc, ans):
+    """The value lists of the Properties [[pos, k], ...] (model answer of itervalues)."""
+    out = []
+    for pos, k in ans:
+        node = {"s": doc["s"]}
+        for i in pos:
+            node = node["s"][i]
+        out.append(list(node["p"][k]["v"]))
+    return out
+
+
 def norm_res(r):
     """Only ok-vs-raised is compared (the property names no exception class)."""
     if isinstance(r, dict) and "raised" in r:
@@ -388,7 +1107,14 @@ class C14(fw.Check):
             "max_depth in {None,-1,0..depth+1} x yield_self x filters for the three iterators, "
             "find/find_related over key/type/flag grids; big: random trees up to 200 Sections with "
             "sampled pairs; paths/weird: arbitrary path strings and unsafe names (correspondence only); "
-            "posix: random strings through posixpath vs Py/Posix.lean. A case is non-trivial when the "
+            "posix: random strings through posixpath vs Py/Posix.lean; ids: trees whose Sections / "
+            "Properties share ids; hist: the Document reaches its state through a history (constructors or "
+            "a trip through the XML/JSON/YAML writer and reader or Document.clone, then 1-12 public API "
+            "edits - rename, move, remove, insert, replace, reorder, sort, clone with/without keep_id, new_id, "
+            "link/merge/clean/finalize, type/value edits, refused calls, moves to and from a second Document - "
+            "with queries of every kind before and between the edits); the tree read from the child lists "
+            "after the history is queried like a small/big tree and given to the model. "
+            "A case is non-trivial when the "
             "tree has at least two Sections (tree streams) or the function result is non-empty (posix); "
             "distinct = distinct canonical JSON of the case.")
 
@@ -471,6 +1197,54 @@ class C14(fw.Check):
                     sb = segs()
                 if True:      # only strings get_path() can return for path-safe names
                     cases.append({"stream": "posix", "f": f, "a": "/" + "/".join(sa), "b": "/" + "/".join(sb)})
+        # ---- added after seeded round 2 (kept behind the older streams: they see the same rng) ----
+        # objects sharing an id
+        scale = 1 if tier == "quick" else 6
+        pool = [f for n in (2, 3) for f in forests(n)]
+        for f in (rng.sample(pool, 60) if tier == "quick" else pool):
+            doc = {"s": decorate(f, rng, uid)}
+            share_ids(rng, doc["s"])
+            cases.append({"stream": "ids", "h": True, "plan": "all", "doc": doc})
+        for i in range(30 * scale):
+            doc = {"s": decorate(rng.choice(forests(rng.choice([4, 5]))), rng, uid)}
+            share_ids(rng, doc["s"])
+            cases.append({"stream": "ids", "h": True, "plan": "all", "doc": doc})
+        for i in range(4 * scale):
+            f = random_forest(rng, rng.choice([10, 30, 80]), BIG_NAMES, rng.choice([2, 3, 6, 12]))
+            doc = {"s": decorate(f, rng, uid, TYPES, PROP_NAMES)}
+            share_ids(rng, doc["s"])
+            cases.append({"stream": "ids", "h": True, "plan": rng.randrange(1, 10 ** 9), "doc": doc})
+        # deep trees (boundary of "large random trees": depth instead of width)
+        for i in range(3 * scale):
+            f = chain_forest(rng, rng.choice([30, 60, 120]), NAMES + ["c", "a b"])
+            cases.append({"stream": "big", "h": True, "plan": rng.randrange(1, 10 ** 9),
+                          "doc": {"s": decorate(f, rng, uid, TYPES, PROP_NAMES)}})
+        # histories: every kind of operation after every kind of query ...
+        small = lambda: rng.choice(forests(rng.choice([1, 2, 2, 3, 3, 3, 4, 4, 5])))
+        for kind in OP_KINDS:
+            for j in range(8 * scale):
+                warm = [None, WARM_KINDS, WARM_KINDS + ["mid"], ["paths"], [rng.choice(WARM_KINDS)], []][j % 6]
+                cases.append(hist_case(rng, uid, small(), [kind], warm, "all", links=kind in ("finalize", "clean"),
+                                       ids=rng.random() < 0.15))
+        # ... random longer histories ...
+        for i in range(200 * scale):
+            kinds = rng.choices(OP_KINDS, OP_WEIGHTS, k=rng.randrange(2, 9))
+            cases.append(hist_case(rng, uid, small(), kinds, None, "all", links=rng.random() < 0.15,
+                                   ids=rng.random() < 0.2))
+        # ... on large trees ...
+        for i in range(8 * scale):
+            f = random_forest(rng, rng.choice([10, 25, 60, 120]), BIG_NAMES, rng.choice([2, 3, 6, 12]))
+            kinds = rng.choices(OP_KINDS, OP_WEIGHTS, k=rng.randrange(2, 12))
+            cases.append(hist_case(rng, uid, f, kinds, None, rng.randrange(1, 10 ** 9), big=True,
+                                   ids=rng.random() < 0.3))
+        # ... and on Documents that come out of a reader (string and file entry points)
+        for i in range(48 * scale):
+            via = (["XML", "JSON", "YAML", "CLONE"][i % 4], ["string", "file"][(i // 4) % 2])
+            if via[0] == "CLONE":
+                via = ("CLONE", ["keep_id", "new_id"][(i // 4) % 2])
+            kinds = rng.choices(OP_KINDS, OP_WEIGHTS, k=rng.randrange(0, 5))
+            cases.append(hist_case(rng, uid, small(), kinds, None, "all", via=via, links=rng.random() < 0.3,
+                                   ids=via[1] == "string" and rng.random() < 0.4))
         return cases
 
     # -- implementation ------------------------------------------------------
@@ -496,8 +1270,16 @@ class C14(fw.Check):
             except Exception as exc:
                 return {"raised": fw.exc_name(exc)}
             raise ValueError(f)
+        if is_hist(case):
+            try:
+                im = HistImpl(case)
+            except Skip as exc:
+                return {"skipped": str(exc)}
+            dc = derived_case(case, im.final)
+            return {"answers_z": pack_answers([im.run(q) for q in plan_queries(dc)]), "doc": im.final,
+                    "log": im.log, "mid": im.mid, "stopped": im.stopped}
         im = Impl(case["doc"])
-        return {"answers": [im.run(q) for q in plan_queries(case)]}
+        return {"answers_z": pack_answers([im.run(q) for q in plan_queries(case)])}
 
     # -- model ---------------------------------------------------------------
     def model_requests(self, case, obs):
@@ -508,11 +1290,16 @@ class C14(fw.Check):
             if "b" in case:
                 req["b"] = case["b"]
             return [req]
+        case = eff_case(case, obs)
+        if case is None:
+            return []
         return [{"op": "tree", "doc": case["doc"], "qs": plan_queries(case)}]
 
     def compare(self, case, obs, answers):
         if not answers:
             return []
+        if is_hist(case):
+            case = eff_case(case, obs)
         if case["stream"] == "posix":
             if "raised" in obs:
                 return ["%s(%r, %r) raised %s" % (case["f"], case["a"], case.get("b"), obs["raised"])]
@@ -523,14 +1310,17 @@ class C14(fw.Check):
         out = []
         if answers[0][0] != case["h"]:
             out.append("model says well-formed/path-safe=%s, generator says %s" % (answers[0][0], case["h"]))
-        if len(obs["answers"]) != len(answers[0]):
-            return out + ["implementation answered %d queries, model %d" % (len(obs["answers"]), len(answers[0]))]
+        impl_answers = answers_of(obs)
+        if len(impl_answers) != len(answers[0]):
+            return out + ["implementation answered %d queries, model %d" % (len(impl_answers), len(answers[0]))]
         qs = None
         for i in range(1, len(answers[0])):
-            got, want = obs["answers"][i], answers[0][i]
+            got, want = impl_answers[i], answers[0][i]
             if got != want and norm_answer(got) != norm_answer(want):
                 if qs is None:
                     qs = plan_queries(case)
+                if case.get("rawvals") and qs[i]["q"] == "iterval" and got == vals_at(case["doc"], want):
+                    continue      # value lists observed by content: the model names their Properties
                 if not case["h"] and qs[i]["q"] in ("abs", "absp", "relres", "relp", "sec", "prop"):
                     continue      # paths over names outside the property's quantifier are not compared
                 out.append("%s: implementation %s, model %s" % (fw.canon(qs[i]), fw.canon(got), fw.canon(want)))
@@ -540,12 +1330,19 @@ class C14(fw.Check):
 
     # -- oracle (the property over the public API, independent of the model) --
     def oracle(self, case, obs):
-        if "harness_exception" in obs or case["stream"] == "posix" or not case.get("h"):
+        if "harness_exception" in obs or case["stream"] == "posix":
             return []
+        out = []
+        if is_hist(case):
+            out += obs.get("mid", [])        # the property at intermediate states of the history
+            case = eff_case(case, obs)
+            if case is None:
+                return out
+        if not case.get("h"):
+            return out
         doc = case["doc"]
         secs, _depth = sec_positions(doc)
         byp = dict((tuple(p), s) for p, s in secs)
-        out = []
 
         def below(start, md, include_start):
             """positions of Sections at or below start, per level, limited by md"""
@@ -572,7 +1369,7 @@ class C14(fw.Check):
         val_ok = {"all": lambda v, f: True, "none": lambda v, f: False,
                   "len_ge": lambda v, f: len(v) >= f["n"], "has": lambda v, f: f["n"] in v}
 
-        for q, a in zip(plan_queries(case), obs["answers"]):
+        for q, a in zip(plan_queries(case), answers_of(obs)):
             kind = q["q"]
             if kind in ("abs", "relres"):
                 want = q["target"] if kind == "abs" else q["b"]
@@ -607,6 +1404,20 @@ class C14(fw.Check):
                                 val_ok[q["f"]["k"]](pr["v"], q["f"])
                             if ok:
                                 want.append((p, k))
+                if kind == "iterval" and case.get("rawvals"):
+                    # value lists observed by content (equal lists in clones / merged Sections):
+                    # the multiset must be right, and some assignment must be breadth first
+                    queues = {}
+                    for p, k in want:
+                        queues.setdefault(repr(byp[p]["p"][k]["v"]), []).append(len(p))
+                    if sorted(map(repr, a)) != sorted(repr(byp[p]["p"][k]["v"]) for p, k in want):
+                        out.append("itervalues%s yields %s, expected exactly once each the value lists of %s"
+                                   % (fw.canon(q), a, want))
+                    else:
+                        depths = [queues[repr(v)].pop(0) for v in a]
+                        if depths != sorted(depths):
+                            out.append("itervalues%s is not breadth first: %s" % (fw.canon(q), a))
+                    continue
                 got = [(tuple(x[0]), x[1]) if isinstance(x, list) else x for x in a]
                 if sorted(map(repr, got)) != sorted(map(repr, want)):
                     out.append("%s%s yields %s, expected exactly once each of %s" % (kind, fw.canon(q), got, want))
@@ -653,6 +1464,9 @@ class C14(fw.Check):
     def tag(self, case, obs):
         if case["stream"] == "posix":
             return ("posix:" + case["f"], bool(obs.get("r")))
+        case0, case = case, eff_case(case, obs)
+        if case is None:
+            return (case0["stream"] + ":skipped", False)
         secs, depth = sec_positions(case["doc"])
         return ("%s:n=%s" % (case["stream"], len(secs) if len(secs) < 6 else "6+"), len(secs) >= 2)
 
